@@ -271,7 +271,7 @@ func c17Scenario(clients []gridClient) *explore.Scenario {
 func c17Scenarios(thorough bool) []*explore.Scenario {
 	n := 2
 	if thorough {
-		n = 8
+		n = 64
 	}
 	return []*explore.Scenario{c17Scenario(c17Clients(n))}
 }
@@ -279,7 +279,7 @@ func c17Scenarios(thorough bool) []*explore.Scenario {
 func init() {
 	register(&Prop{ID: "C17", Level: "exploration", Variant: "A", Scenarios: c17Scenarios,
 		Run: func(c *explore.Check, thorough bool) {
-			c.Rule = "every TLS 1.3 client without PSK (all IDs, 2 (8) seeds per randomized kind, custom specs) x every classical group it lists without a share (forced through the verif group hook) x cookie {none, 1, 32, 255, 1024 bytes} (added to the HRR before it enters the server transcript) x HRR kind {valid, group not listed, group already shared, neither group nor cookie, second HRR}: valid => CH2 equals CH1 extension by extension except key_share (exactly one fresh share of the requested group), the echoed cookie and padding, and the handshake completes with echo; invalid => client error and no further ClientHello. distinct = (client, kind, group, cookie)"
+			c.Rule = "every TLS 1.3 client without PSK (all IDs, 2 (64) seeds per randomized kind, custom specs) x every classical group it lists without a share (forced through the verif group hook) x cookie {none, 1, 32, 255, 1024 bytes} (added to the HRR before it enters the server transcript) x HRR kind {valid, group not listed, group already shared, neither group nor cookie, second HRR}: valid => CH2 equals CH1 extension by extension except key_share (exactly one fresh share of the requested group), the echoed cookie and padding, and the handshake completes with echo; invalid => client error and no further ClientHello. distinct = (client, kind, group, cookie)"
 			c.Assumptions = []string{"the utls server with verif hooks H1/H2 is the HelloRetryRequest source; its transcript sees the modified HRR", "the cookie insertion index is drawn from a fresh PRNG and is observed, not enumerated", "handshake completion after an HRR is required for cookie-less HRRs only: the only server available rejects a cookie in the second ClientHello, so with a cookie the check judges the shape of CH2"}
 			runAll(c, c17Scenarios(thorough), 0)
 			c.Gate(c.Total.Counters["valid_hrr_cases"] > 200, "non-vacuity: %d valid HRR cases", c.Total.Counters["valid_hrr_cases"])
